@@ -341,4 +341,535 @@ theorem stepLine_chk (st : Cat × Option Int) (r : Int) (hst : st.2 = some r) (l
       pyIntE_toDec, ebind_ok, mapM_strip_ints, epure_ok, setEntry_some hst, applyLine, hst, natsToInts,
       List.map_cons]
 
+/-! ### the variables line -/
+
+/-- variable names for which T2 is proven: printable ASCII without space,
+quote, backslash, comma -/
+def nameOK (n : Str) : Bool :=
+  n.all fun c => 33 ≤ c.toNat && c.toNat < 127 && c != '\'' && c != '\\' && c != ','
+
+def qq (n : Str) : Str := '\'' :: (n ++ ['\''])
+
+theorem nameOK_char {n : Str} (h : nameOK n = true) {c : Char} (hc : c ∈ n) :
+    33 ≤ c.toNat ∧ c.toNat < 127 ∧ c ≠ '\'' ∧ c ≠ '\\' ∧ c ≠ ',' := by
+  have := List.all_eq_true.mp h c hc
+  simp only [Bool.and_eq_true, decide_eq_true_eq, bne_iff_ne, ne_eq] at this
+  exact ⟨this.1.1.1.1, this.1.1.1.2, this.1.1.2, this.1.2, this.2⟩
+
+theorem pyRepr_ok {n : Str} (h : nameOK n = true) : pyRepr n = qq n := by
+  have hq : n.contains '\'' = false := by
+    cases hc : n.contains '\'' with
+    | false => rfl
+    | true =>
+      have : '\'' ∈ n := by simpa using hc
+      exact absurd rfl (nameOK_char h this).2.2.1
+  unfold pyRepr
+  simp only [hq, Bool.false_and, Bool.false_eq_true, if_false]
+  have : ∀ m : Str, (∀ c ∈ m, c ∈ n) → (m.map fun c =>
+      if (c == '\'' || c == '\\') = true then ['\\', c]
+      else if (c == '\n') = true then ['\\', 'n'] else if (c == '\r') = true then ['\\', 'r']
+      else if (c == '\t') = true then ['\\', 't']
+      else if (decide (c.toNat < 32) || c.toNat == 127 || (decide (128 ≤ c.toNat) && decide (c.toNat ≤ 160)) || c.toNat == 173) = true
+        then ['\\', 'x'] ++ hex2 c.toNat
+      else [c]).flatten = m := by
+    intro m
+    induction m with
+    | nil => intro _; rfl
+    | cons a m ih =>
+      intro hm
+      obtain ⟨h1, h2, h3, h4, h5⟩ := nameOK_char h (hm a (List.mem_cons_self ..))
+      have ih' := ih (fun c hc => hm c (List.mem_cons_of_mem _ hc))
+      have e1 : (a == '\'' || a == '\\') = false := by simp [h3, h4]
+      have e2 : (a == '\n') = false := by
+        have : a ≠ '\n' := by intro hh; subst hh; revert h1; decide
+        simpa using this
+      have e3 : (a == '\r') = false := by
+        have : a ≠ '\r' := by intro hh; subst hh; revert h1; decide
+        simpa using this
+      have e4 : (a == '\t') = false := by
+        have : a ≠ '\t' := by intro hh; subst hh; revert h1; decide
+        simpa using this
+      have e5 : (decide (a.toNat < 32) || a.toNat == 127 || (decide (128 ≤ a.toNat) && decide (a.toNat ≤ 160)) || a.toNat == 173) = false := by
+        simp only [Bool.or_eq_false_iff, Bool.and_eq_false_iff, decide_eq_false_iff_not, beq_eq_false_iff_ne]
+        omega
+      simp only [List.map_cons, List.flatten_cons, e1, e2, e3, e4, e5, Bool.false_eq_true, if_false, ih']
+      rfl
+  have := this n (fun c hc => hc)
+  simp only [qq]
+  simpa using this
+
+def hasPair (x y : Char) : Str → Bool
+  | a :: b :: r => (a == x && b == y) || hasPair x y (b :: r)
+  | _ => false
+
+theorem hasPair_of_isPrefixOf {x y : Char} : ∀ {m s : Str}, hasPair x y m = true → m.isPrefixOf s = true →
+    hasPair x y s = true := by
+  intro m
+  induction m with
+  | nil => intro s h; simp [hasPair] at h
+  | cons a m ih =>
+    intro s h hp
+    cases m with
+    | nil => simp [hasPair] at h
+    | cons b m' =>
+      cases s with
+      | nil => simp [List.isPrefixOf] at hp
+      | cons a' s' =>
+        cases s' with
+        | nil => simp [List.isPrefixOf] at hp
+        | cons b' s'' =>
+          simp only [List.isPrefixOf_cons_cons, Bool.and_eq_true, beq_iff_eq] at hp
+          obtain ⟨ha, hb, hrest⟩ := hp
+          subst ha; subst hb
+          simp only [hasPair, Bool.or_eq_true] at h ⊢
+          rcases h with h | h
+          · exact Or.inl h
+          · exact Or.inr (ih h (by simp [List.isPrefixOf_cons_cons, hrest]))
+
+theorem hasPair_tail {x y a : Char} {s : Str} (h : hasPair x y s = true) : hasPair x y (a :: s) = true := by
+  cases s with
+  | nil => simp [hasPair] at h
+  | cons b r => simp [hasPair, h]
+
+theorem hasPair_of_isInfix {x y : Char} {m : Str} (hm : hasPair x y m = true) :
+    ∀ {s : Str}, isInfix m s = true → hasPair x y s = true := by
+  intro s
+  induction s with
+  | nil => intro h; cases m <;> simp [isInfix, hasPair] at h hm
+  | cons a s ih =>
+    intro h
+    simp only [isInfix, Bool.or_eq_true] at h
+    rcases h with h | h
+    · exact hasPair_of_isPrefixOf hm h
+    · exact hasPair_tail (ih h)
+
+theorem isInfix_false_of_pair {x y : Char} {m s : Str} (hm : hasPair x y m = true)
+    (hs : hasPair x y s = false) : isInfix m s = false := by
+  cases h : isInfix m s with
+  | false => rfl
+  | true => rw [hasPair_of_isInfix hm h] at hs; exact absurd hs (by simp)
+
+theorem hasPair_notin {x y : Char} : ∀ {s : Str}, x ∉ s → hasPair x y s = false := by
+  intro s
+  induction s with
+  | nil => intro _; rfl
+  | cons a s ih =>
+    intro h
+    simp only [List.mem_cons, not_or] at h
+    cases s with
+    | nil => rfl
+    | cons b r =>
+      have : (a == x) = false := by simpa using fun e => h.1 e.symm
+      simp [hasPair, this, ih h.2]
+
+theorem hasPair_append_notin {x y : Char} {b : Str} : ∀ {a : Str}, x ∉ a →
+    hasPair x y (a ++ b) = hasPair x y b := by
+  intro a
+  induction a with
+  | nil => intro _; rfl
+  | cons c a ih =>
+    intro h
+    simp only [List.mem_cons, not_or] at h
+    have hc : (c == x) = false := by simpa using fun e => h.1 e.symm
+    cases hab : a ++ b with
+    | nil =>
+      have hb : b = [] := by cases a <;> simp_all
+      have ha : a = [] := by cases a <;> simp_all
+      simp [hb, ha, hasPair]
+    | cons d r =>
+      have := ih h.2
+      rw [hab] at this
+      simp [hab, hasPair, hc, this]
+
+theorem no_space_of_nameOK {n : Str} (h : nameOK n = true) : ' ' ∉ n := by
+  intro hc; have := (nameOK_char h hc).1; revert this; decide
+
+theorem joinSep_qq_head (m : Str) (r : List Str) :
+    ∃ rest, joinSep [',', ' '] ((m :: r).map qq) = '\'' :: rest := by
+  cases r with
+  | nil => exact ⟨m ++ ['\''], by simp [joinSep, qq]⟩
+  | cons y r' => exact ⟨_, by simp [joinSep_cons_cons, qq]; rfl⟩
+
+/-- in `pre ++ ', '.join(reprs) ++ t` every space is followed by a quote -/
+theorem hasPair_body (y : Char) (hy : y ≠ '\'') (t : Str) (ht : ' ' ∉ t) :
+    ∀ (l : List Str) (pre : Str), ' ' ∉ pre → (∀ n ∈ l, nameOK n = true) →
+      hasPair ' ' y (pre ++ (joinSep [',', ' '] (l.map qq) ++ t)) = false := by
+  intro l
+  induction l with
+  | nil => intro pre hpre _; exact hasPair_notin (by simp [joinSep, hpre, ht])
+  | cons n l ih =>
+    intro pre hpre hl
+    have hn := no_space_of_nameOK (hl n (List.mem_cons_self ..))
+    cases l with
+    | nil => exact hasPair_notin (by simp [joinSep, qq, hpre, ht, hn])
+    | cons m r =>
+      obtain ⟨rest, hrest⟩ := joinSep_qq_head m r
+      have ih' := ih [] (by simp) (fun k hk => hl k (List.mem_cons_of_mem _ hk))
+      have : pre ++ (joinSep [',', ' '] ((n :: m :: r).map qq) ++ t) =
+          (pre ++ qq n ++ [',']) ++ (' ' :: (joinSep [',', ' '] ((m :: r).map qq) ++ t)) := by
+        simp [joinSep_cons_cons, List.append_assoc]
+      rw [this, hasPair_append_notin (by simp [qq, hpre, hn])]
+      simp only [List.nil_append] at ih'
+      rw [hrest] at ih' ⊢
+      have hy' : ('\'' == y) = false := by simpa using fun e => hy e.symm
+      simp only [List.cons_append] at ih'
+      simp [hasPair, hy', ih']
+
+/-- no occurrence of `m` in `s` ⇒ `s.split(m) = [s]` -/
+theorem split_none' {m : Str} (hm : m ≠ []) : ∀ {s : Str}, isInfix m s = false → split m s = [s] := by
+  intro s
+  induction s with
+  | nil => intro _; rfl
+  | cons a s ih =>
+    intro h
+    simp only [isInfix, Bool.or_eq_false_iff] at h
+    have := ih h.2
+    simp only [split] at this ⊢
+    simp [splitGo, h.1, this, consHead]
+
+def piecesT (t : Str) : List Str → List Str
+  | [] => []
+  | [x] => [qq x ++ t]
+  | x :: y :: r => qq x :: piecesT t (y :: r)
+
+theorem comma_notin_qq {n : Str} (h : nameOK n = true) : ',' ∉ qq n := by
+  intro hc
+  simp only [qq, List.mem_cons, List.mem_append, List.mem_nil_iff, or_false] at hc
+  rcases hc with hc | hc | hc
+  · revert hc; decide
+  · exact (nameOK_char h hc).2.2.2.2 rfl
+  · revert hc; decide
+
+theorem split_comma_sp_qq (t : Str) (ht : ',' ∉ t) : ∀ (l : List Str), l ≠ [] → (∀ n ∈ l, nameOK n = true) →
+    split [',', ' '] (joinSep [',', ' '] (l.map qq) ++ t) = piecesT t l := by
+  intro l
+  induction l with
+  | nil => intro h; exact absurd rfl h
+  | cons n l ih =>
+    intro _ hl
+    have hn := comma_notin_qq (hl n (List.mem_cons_self ..))
+    cases l with
+    | nil =>
+      simp only [List.map_cons, List.map_nil, joinSep, piecesT]
+      exact split_none (c := ',') (by simp) (by simp [hn, ht])
+    | cons m r =>
+      have : joinSep [',', ' '] ((n :: m :: r).map qq) ++ t =
+          qq n ++ ',' :: ' ' :: (joinSep [',', ' '] ((m :: r).map qq) ++ t) := by
+        simp [joinSep_cons_cons, List.append_assoc]
+      rw [this, split2_first _ hn, ih (by simp) (fun k hk => hl k (List.mem_cons_of_mem _ hk))]
+      rfl
+
+theorem split_quote_piece {n : Str} (h : nameOK n = true) (t : Str) (ht : '\'' ∉ t) :
+    split ['\''] (qq n ++ t) = [[], n, t] := by
+  have hq : '\'' ∉ n := fun hc => (nameOK_char h hc).2.2.1 rfl
+  have : qq n ++ t = [] ++ '\'' :: (n ++ '\'' :: t) := by simp [qq]
+  rw [this, split1_first _ (by simp), split1_first _ hq, split1_none ht]
+
+theorem mapM_pieces (t : Str) (ht : '\'' ∉ t) : ∀ (l : List Str), (∀ n ∈ l, nameOK n = true) →
+    (piecesT t l).mapM (fun v => idx (split ['\''] v) 1) = (.ok l : Except Err (List Str)) := by
+  intro l
+  induction l with
+  | nil => intro _; rfl
+  | cons n l ih =>
+    intro hl
+    have hn := hl n (List.mem_cons_self ..)
+    cases l with
+    | nil =>
+      simp [piecesT, List.mapM_cons, split_quote_piece hn t ht, idx]
+    | cons m r =>
+      have ih' := ih (fun k hk => hl k (List.mem_cons_of_mem _ hk))
+      have h0 := split_quote_piece hn [] (by simp)
+      simp only [List.append_nil] at h0
+      show (qq n :: piecesT t (m :: r)).mapM (fun v => idx (split ['\''] v) 1) = _
+      rw [List.mapM_cons, h0, ih']
+      rfl
+
+theorem hasPair_cons_ne {x y a : Char} {s : Str} (h : a ≠ x) : hasPair x y (a :: s) = hasPair x y s := by
+  cases s with
+  | nil => simp [hasPair]
+  | cons b r => simp [hasPair, h]
+
+theorem hasPair_cons_eq_ne {x y b : Char} {s : Str} (h : b ≠ y) :
+    hasPair x y (x :: b :: s) = hasPair x y (b :: s) := by
+  simp [hasPair, h]
+
+theorem idx_one {α : Type} (a b : α) (r : List α) : idx (a :: b :: r) 1 = .ok b := rfl
+
+/-- the part of the line after `3D variables available: [` -/
+theorem pyStrList_ok {l : List Str} (hl : ∀ n ∈ l, nameOK n = true) :
+    pyStrList l = '[' :: (joinSep [',', ' '] (l.map qq) ++ [']']) := by
+  have : l.map pyRepr = l.map qq := List.map_congr_left (fun n hn => pyRepr_ok (hl n hn))
+  simp [pyStrList, this]
+
+theorem vars_no_restart (l : List Str) (hl : ∀ n ∈ l, nameOK n = true) :
+    isInfix mRestart (printLine (.vars l)) = false := by
+  let body : Str := joinSep [',', ' '] (l.map qq) ++ [']']
+  have hline : printLine (.vars l) = mVarsOpen ++ body := by
+    simp [printLine, pyStrList_ok hl, mVarsOpen, body]
+  have hpb : ∀ y, y ≠ '\'' → hasPair ' ' y ('[' :: body) = false := by
+    intro y hy
+    have := hasPair_body y hy [']'] (by decide) l ['['] (by decide) hl
+    simpa [body] using this
+  have hpb' : ∀ y, y ≠ '\'' → hasPair ' ' y body = false := by
+    intro y hy
+    have := hasPair_body y hy [']'] (by decide) l [] (by simp) hl
+    simpa [body] using this
+  have h0 : isInfix mRestart (printLine (.vars l)) = false := by
+    apply isInfix_false_of_pair (x := ' ') (y := '=') (by decide)
+    have e : printLine (.vars l) = mVars ++ ':' :: ' ' :: '[' :: body := by
+      simp [hline, mVarsOpen]
+    rw [e]
+    have := hpb '=' (by decide)
+    simp [mVars, hasPair_cons_ne, hasPair_cons_eq_ne, this]
+  exact h0
+
+theorem stepLine_vars (st : Cat × Option Int) (r : Int) (hst : st.2 = some r) (l : List Str)
+    (hne : l ≠ []) (hl : ∀ n ∈ l, nameOK n = true) :
+    stepLine st (printLine (.vars l)) = .ok (applyLine st (.vars l)) := by
+  let body : Str := joinSep [',', ' '] (l.map qq) ++ [']']
+  have hline : printLine (.vars l) = mVarsOpen ++ body := by
+    simp [printLine, pyStrList_ok hl, mVarsOpen, body]
+  have hpb : ∀ y, y ≠ '\'' → hasPair ' ' y ('[' :: body) = false := by
+    intro y hy
+    have := hasPair_body y hy [']'] (by decide) l ['['] (by decide) hl
+    simpa [body] using this
+  have hpb' : ∀ y, y ≠ '\'' → hasPair ' ' y body = false := by
+    intro y hy
+    have := hasPair_body y hy [']'] (by decide) l [] (by simp) hl
+    simpa [body] using this
+  have h0 : isInfix mRestart (printLine (.vars l)) = false := by
+    apply isInfix_false_of_pair (x := ' ') (y := '=') (by decide)
+    have e : printLine (.vars l) = mVars ++ ':' :: ' ' :: '[' :: body := by
+      simp [hline, mVarsOpen]
+    rw [e]
+    have := hpb '=' (by decide)
+    simp [mVars, hasPair_cons_ne, hasPair_cons_eq_ne, this]
+  have h1 : isInfix mVars (printLine (.vars l)) = true := by
+    have : printLine (.vars l) = mVars ++ ([':', ' ', '['] ++ body) := by simp [hline, mVarsOpen]
+    rw [this]; exact isInfix_of_prefix (isPrefixOf_append_self _ _)
+  have h2 : split mVarsOpen (printLine (.vars l)) = [[], body] := by
+    rw [hline]
+    have hb : isInfix mVarsOpen body = false :=
+      isInfix_false_of_pair (x := ' ') (y := 'v') (by decide) (hpb' 'v' (by decide))
+    have := split_first (c := '3') (sep' := mVarsOpen.tail) (a := []) body (by simp)
+    have e : ('3' :: mVarsOpen.tail) = mVarsOpen := by decide
+    rw [e] at this
+    simp only [List.nil_append] at this
+    rw [this, split_none' (by decide) hb]
+  have h3 : split [',', ' '] body = piecesT [']'] l := split_comma_sp_qq [']'] (by decide) l hne hl
+  have h4 := mapM_pieces [']'] (by decide) l hl
+  simp only [stepLine, h0, h1, h2, idx_one, h3, h4, if_true, Bool.false_eq_true, if_false,
+    ebind_ok, setEntry_some hst, applyLine, hst]
+
+/-! ### assembling T2 -/
+
+def noMarker (s : Str) : Bool :=
+  !isInfix mRestart s && !isInfix mVars s && !isInfix mArrow s && !isInfix mRl s && !isInfix mChk s
+
+/-- hypotheses of T2 on one line: variable names are plain (`nameOK`), and the
+free-text lines (the two lines carrying a path) contain none of the five
+markers the classifier of `read_iterations` looks for, nor a line break -/
+def LineOK : Line → Prop
+  | .vars l => l ≠ [] ∧ ∀ n ∈ l, nameOK n = true
+  | .noData p => noMarker (printLine (.noData p)) = true ∧ '\n' ∉ p ∧ '\r' ∉ p
+  | .reading p => noMarker (printLine (.reading p)) = true ∧ '\n' ∉ p ∧ '\r' ∉ p
+  | _ => True
+
+def setsEntry : Line → Bool
+  | .restart _ => false
+  | .noData _ => false
+  | .reading _ => false
+  | _ => true
+
+theorem stepLine_free (st : Cat × Option Int) (s : Str) (h : noMarker s = true) : stepLine st s = .ok st := by
+  simp only [noMarker, Bool.and_eq_true, Bool.not_eq_true'] at h
+  obtain ⟨⟨⟨⟨h0, h1⟩, h2⟩, h3⟩, h4⟩ := h
+  simp [stepLine, h0, h1, h2, h3, h4]
+
+theorem stepLine_ok (st : Cat × Option Int) (l : Line) (hl : LineOK l)
+    (hst : setsEntry l = true → st.2.isSome = true) :
+    stepLine st (printLine l) = .ok (applyLine st l) := by
+  cases l with
+  | restart n => exact stepLine_restart st n
+  | noData p => rw [stepLine_free st _ hl.1]; rfl
+  | reading p => rw [stepLine_free st _ hl.1]; rfl
+  | vars l =>
+    obtain ⟨r, hr⟩ := Option.isSome_iff_exists.mp (hst rfl)
+    exact stepLine_vars st r hr l hl.1 hl.2
+  | its a b =>
+    obtain ⟨r, hr⟩ := Option.isSome_iff_exists.mp (hst rfl)
+    exact stepLine_its st r hr a b
+  | arange rl a b d =>
+    obtain ⟨r, hr⟩ := Option.isSome_iff_exists.mp (hst rfl)
+    exact stepLine_arange st r hr rl a b d
+  | single rl x =>
+    obtain ⟨r, hr⟩ := Option.isSome_iff_exists.mp (hst rfl)
+    exact stepLine_single st r hr rl x
+  | chk l =>
+    obtain ⟨r, hr⟩ := Option.isSome_iff_exists.mp (hst rfl)
+    exact stepLine_chk st r hr l
+
+theorem applyLine_isSome (st : Cat × Option Int) (l : Line) (h : st.2.isSome = true) :
+    (applyLine st l).2.isSome = true := by
+  obtain ⟨r, hr⟩ := Option.isSome_iff_exists.mp h
+  cases l <;> simp [applyLine, hr]
+
+theorem foldlE_stepLine (ls : List Line) (hok : ∀ l ∈ ls, LineOK l) :
+    ∀ st : Cat × Option Int, st.2.isSome = true →
+      foldlE stepLine st (ls.map printLine) = .ok (ls.foldl applyLine st) := by
+  induction ls with
+  | nil => intro st _; rfl
+  | cons l ls ih =>
+    intro st hst
+    simp only [List.map_cons, foldlE, List.foldl_cons]
+    rw [stepLine_ok st l (hok l (List.mem_cons_self ..)) (fun _ => hst)]
+    exact ih (fun k hk => hok k (List.mem_cons_of_mem _ hk)) _ (applyLine_isSome st l hst)
+
+theorem foldlE_append_single {σ α : Type} (f : σ → α → Except Err σ) (s : σ) (l : List α) (x : α) (s' : σ)
+    (h : foldlE f s l = .ok s') : foldlE f s (l ++ [x]) = f s' x := by
+  induction l generalizing s with
+  | nil =>
+    simp only [foldlE] at h
+    injection h with h; subst h
+    simp only [List.nil_append, foldlE]
+    cases f s x <;> rfl
+  | cons a l ih =>
+    simp only [List.cons_append, foldlE] at h ⊢
+    cases hfa : f s a with
+    | error e => rw [hfa] at h; simp at h
+    | ok s1 => rw [hfa] at h; simp only at h ⊢; exact ih s1 h
+
+/-- a printed line contains no line break -/
+theorem line_no_break (l : Line) (hl : LineOK l) : '\n' ∉ printLine l ∧ '\r' ∉ printLine l := by
+  cases l with
+  | restart n => constructor <;> simp [printLine, mRestart]
+  | its a b => constructor <;> simp [printLine, sItEq]
+  | arange rl a b d => constructor <;> simp [printLine, mRl, sAtIt, sNpArange]
+  | single rl x => constructor <;> simp [printLine, mRl, sAtIt]
+  | noData p => constructor <;> simp [printLine, sNoData, hl.2.1, hl.2.2]
+  | reading p => constructor <;> simp [printLine, sReading, hl.2.1, hl.2.2]
+  | chk l =>
+    have hj := comma_notin_join l
+    have : ∀ c, c ∈ printLine (.chk l) → c ∈ mChkColon ∨ c = '[' ∨ c = ']' ∨ c = ',' ∨ c = ' ' ∨ isDig c = true := by
+      intro c hc
+      simp only [printLine, pyNatList, List.mem_append, List.mem_cons, List.mem_nil_iff, or_false] at hc
+      rcases hc with hc | (hc | hc) | hc
+      · exact Or.inl hc
+      · exact Or.inr (Or.inl hc)
+      · rcases hj c hc with h | h | h
+        · exact Or.inr (Or.inr (Or.inr (Or.inl h)))
+        · exact Or.inr (Or.inr (Or.inr (Or.inr (Or.inl h))))
+        · exact Or.inr (Or.inr (Or.inr (Or.inr (Or.inr h))))
+      · exact Or.inr (Or.inr (Or.inl hc))
+    constructor <;> (intro hc; rcases this _ hc with h | h | h | h | h | h <;> revert h <;> decide)
+  | vars l =>
+    have hbody : ∀ c, c ∈ joinSep [',', ' '] (l.map qq) → c = ',' ∨ c = ' ' ∨ c = '\'' ∨ ∃ n ∈ l, c ∈ n := by
+      have : ∀ l : List Str, ∀ c, c ∈ joinSep [',', ' '] (l.map qq) →
+          c = ',' ∨ c = ' ' ∨ c = '\'' ∨ ∃ n ∈ l, c ∈ n := by
+        intro l
+        induction l with
+        | nil => simp [joinSep]
+        | cons n l ih =>
+          intro c hc
+          cases l with
+          | nil =>
+            simp only [List.map_cons, List.map_nil, joinSep, qq, List.mem_cons, List.mem_append,
+              List.mem_nil_iff, or_false] at hc
+            rcases hc with hc | hc | hc
+            · exact Or.inr (Or.inr (Or.inl hc))
+            · exact Or.inr (Or.inr (Or.inr ⟨n, by simp, hc⟩))
+            · exact Or.inr (Or.inr (Or.inl hc))
+          | cons m r =>
+            simp only [List.map_cons, joinSep_cons_cons, qq, List.mem_cons, List.mem_append,
+              List.mem_nil_iff, or_false] at hc
+            rcases hc with ((hc | hc | hc) | hc | hc) | hc
+            · exact Or.inr (Or.inr (Or.inl hc))
+            · exact Or.inr (Or.inr (Or.inr ⟨n, by simp, hc⟩))
+            · exact Or.inr (Or.inr (Or.inl hc))
+            · exact Or.inl hc
+            · exact Or.inr (Or.inl hc)
+            · rcases ih c (by simpa [qq] using hc) with h | h | h | ⟨k, hk, hck⟩
+              · exact Or.inl h
+              · exact Or.inr (Or.inl h)
+              · exact Or.inr (Or.inr (Or.inl h))
+              · exact Or.inr (Or.inr (Or.inr ⟨k, List.mem_cons_of_mem _ hk, hck⟩))
+      exact this l
+    have hline : printLine (.vars l) = mVarsOpen ++ (joinSep [',', ' '] (l.map qq) ++ [']']) := by
+      simp [printLine, pyStrList_ok hl.2, mVarsOpen]
+    have key : ∀ c, c ∈ printLine (.vars l) → 32 ≤ c.toNat := by
+      intro c hc
+      rw [hline] at hc
+      simp only [List.mem_append, List.mem_cons, List.mem_nil_iff, or_false] at hc
+      rcases hc with hc | hc | hc
+      · revert c; decide
+      · rcases hbody c hc with h | h | h | ⟨n, hn, hcn⟩
+        · subst h; decide
+        · subst h; decide
+        · subst h; decide
+        · have := (nameOK_char (hl.2 n hn) hcn).1; omega
+      · subst hc; decide
+    constructor <;> (intro hc; have := key _ hc; revert this; decide)
+
+theorem split_lines (ls : List Line) (hok : ∀ l ∈ ls, LineOK l) :
+    split ['\n'] (printLines ls) = ls.map printLine ++ [[]] := by
+  induction ls with
+  | nil => rfl
+  | cons l ls ih =>
+    have h1 := (line_no_break l (hok l (List.mem_cons_self ..))).1
+    have : printLines (l :: ls) = printLine l ++ '\n' :: printLines ls := by
+      simp [printLines]
+    rw [this, split1_first _ h1, ih (fun k hk => hok k (List.mem_cons_of_mem _ hk))]
+    rfl
+
+theorem universalNl_id : ∀ {s : Str}, '\r' ∉ s → universalNl s = s := by
+  intro s
+  induction s with
+  | nil => intro _; rfl
+  | cons a s ih =>
+    intro h
+    simp only [List.mem_cons, not_or] at h
+    have ha : a ≠ '\r' := fun e => h.1 e.symm
+    have := ih h.2
+    unfold universalNl
+    split <;> simp_all
+
+theorem printLines_no_cr (ls : List Line) (hok : ∀ l ∈ ls, LineOK l) : '\r' ∉ printLines ls := by
+  induction ls with
+  | nil => simp [printLines]
+  | cons l ls ih =>
+    have h1 := (line_no_break l (hok l (List.mem_cons_self ..))).2
+    have h2 := ih (fun k hk => hok k (List.mem_cons_of_mem _ hk))
+    have : printLines (l :: ls) = printLine l ++ '\n' :: printLines ls := by simp [printLines]
+    rw [this]
+    simp [h1, h2]
+
+theorem stepLine_empty (st : Cat × Option Int) : stepLine st [] = .ok st := by
+  apply stepLine_free; decide
+
+/-- **T2** -/
+theorem print_parse_roundtrip_lemma (ls : List Line) (hok : ∀ l ∈ ls, LineOK l)
+    (hstart : ls = [] ∨ ∃ n rest, ls = .restart n :: rest) :
+    readIterationsText (universalNl (printLines ls)) = .ok (catOf ls) := by
+  rw [universalNl_id (printLines_no_cr ls hok)]
+  rcases hstart with h | ⟨n, rest, h⟩
+  · subst h; rfl
+  · subst h
+    have hne : (printLines (.restart n :: rest) == []) = false := by
+      have : printLines (.restart n :: rest) = ' ' :: ((mRestart.tail ++ toDec n) ++ '\n' :: printLines rest) := by
+        simp [printLines, printLine, mRestart]
+      rw [this]; rfl
+    unfold readIterationsText
+    simp only [hne, Bool.false_eq_true, if_false]
+    rw [split_lines _ hok]
+    have hfirst : stepLine ([], none) (printLine (.restart n)) = .ok (applyLine ([], none) (.restart n)) :=
+      stepLine_restart _ n
+    have hrest := foldlE_stepLine rest (fun k hk => hok k (List.mem_cons_of_mem _ hk))
+      (applyLine ([], none) (.restart n)) rfl
+    have hall : foldlE stepLine ([], none) ((Line.restart n :: rest).map printLine) =
+        .ok ((Line.restart n :: rest).foldl applyLine ([], none)) := by
+      simp only [List.map_cons, foldlE, hfirst, List.foldl_cons]
+      exact hrest
+    rw [foldlE_append_single _ _ _ _ _ hall, stepLine_empty]
+    rfl
+
 end AurelVerif.CatalogLemmas
